@@ -22,7 +22,7 @@ def programs(ctx: Ctx, n: int):
         yield text, widths, rws, f"gen{k}"
     for text, widths, rws in list(progs.loop_family())[:: 5 if ctx.quick else 1]:
         yield text, widths, rws, "loop-family"
-    for text, widths, rws in progs.nest_family(ctx.rng("nest"), 40 if ctx.quick else 800):
+    for text, widths, rws in progs.nest_family(ctx.rng("nest"), 160 if ctx.quick else 2000):
         yield text, widths, rws, "nest-family"
     for text, widths, rws in progs.range_fold_family(ctx.rng("rf"), 40 if ctx.quick else 800):
         yield text, widths, rws, "range-fold-family"
